@@ -138,5 +138,98 @@ theorem break_split {d : Nat} {ab : Ab} {sm : SeqMode} {ms mw mw0 : M κ} (h : M
             | stale => exact absurd rfl hsm
             | inSeq => simp only [SeqRel, if_true]
 
+/-! ### sequence arms -/
+
+theorem ScanRel.setSeq {np : Nat} {ab : Ab} {ss sw : ScanRegs} (h : ScanRel δ ab np ss sw) (a b : Option Nat) :
+    ScanRel δ ab np { ss with chSeqStart := a } { sw with chSeqStart := b } :=
+  ⟨h.ts, h.ts_le, h.p, h.st, h.tns, h.endTag, h.hash, h.pend⟩
+
+theorem enterSeq_sim {d : Nat} {ab : Ab} {sm : SeqMode} {ms mw : M κ} (h : MRel δ d 0 ab sm ms mw) (hP : ab.P = true) :
+    MRel δ d 0 ab .inSeq (enterSeq ms) (enterSeq mw) ∧ (enterSeq ms).c = ms.c ∧ (enterSeq ms).x = ms.x ∧
+    (enterSeq mw).c = mw.c ∧ (enterSeq mw).x = mw.x := by
+  obtain ⟨hc, hr, hsim, hpc⟩ := h
+  unfold enterSeq
+  cases hrs : ms.r with
+  | lexer ls =>
+    cases hrw : mw.r with
+    | scanner sw => rw [hrs, hrw] at hr; exact hr.elim
+    | lexer lw =>
+      refine ⟨⟨hc, ?_, hsim, hpc⟩, rfl, rfl, rfl, rfl⟩
+      rw [hrs, hrw] at hr ⊢; exact hr
+  | scanner ss =>
+    cases hrw : mw.r with
+    | lexer lw => rw [hrs, hrw] at hr; exact hr.elim
+    | scanner sw =>
+      rw [hrs, hrw] at hr
+      obtain ⟨hd0, hs, _⟩ := hr
+      have hp := (hs.p hP).1
+      dsimp only
+      refine ⟨⟨hc, ⟨hd0, hs.setSeq _ _, ms.c.pos, rfl, ?_, by show ms.c.pos + 1 = ms.c.nextPos; unfold Common.pos; omega⟩, hsim, hpc⟩, rfl, rfl, rfl, rfl⟩
+      rw [hc.pos hp]
+
+theorem leaveSeq_sim {d : Nat} {ab : Ab} {sm : SeqMode} {ms mw : M κ} (h : MRel δ d 0 ab sm ms mw) :
+    MRel δ d 0 ab .none (leaveSeq ms) (leaveSeq mw) ∧ (leaveSeq ms).c = ms.c ∧ (leaveSeq ms).x = ms.x ∧
+    (leaveSeq mw).c = mw.c ∧ (leaveSeq mw).x = mw.x := by
+  obtain ⟨hc, hr, hsim, hpc⟩ := h
+  unfold leaveSeq
+  cases hrs : ms.r with
+  | lexer ls =>
+    cases hrw : mw.r with
+    | scanner sw => rw [hrs, hrw] at hr; exact hr.elim
+    | lexer lw =>
+      refine ⟨⟨hc, ?_, hsim, hpc⟩, rfl, rfl, rfl, rfl⟩
+      rw [hrs, hrw] at hr ⊢; exact hr
+  | scanner ss =>
+    cases hrw : mw.r with
+    | lexer lw => rw [hrs, hrw] at hr; exact hr.elim
+    | scanner sw =>
+      rw [hrs, hrw] at hr
+      obtain ⟨hd0, hs, _⟩ := hr
+      dsimp only
+      exact ⟨⟨hc, ⟨hd0, hs.setSeq _ _, rfl, rfl⟩, hsim, hpc⟩, rfl, rfl, rfl, rfl⟩
+
+/-- look-ahead: same verdict, unless the split input ends first -/
+theorem matchSeq_sim (F : Frame inpS inpW δ) (il ic : Bool) (hil : il = true → Closed inpS inpW δ) (nps : Nat) :
+    ∀ (es : List UInt8) (dep : Nat), 1 ≤ dep →
+      (matchSeqFrom inpW il ic (nps + δ) dep es = matchSeqFrom inpS il ic nps dep es ∧
+        (matchSeqFrom inpS il ic nps dep es = .matched → es ≠ [] → nps + dep - 1 + es.length ≤ inpS.length)) ∨
+      (matchSeqFrom inpS il ic nps dep es = .needMore ∧ ¬ Closed inpS inpW δ ∧ il = false) := by
+  intro es
+  induction es with
+  | nil => intro dep _; exact Or.inl ⟨rfl, fun _ h => absurd rfl h⟩
+  | cons e es ih =>
+    intro dep hdep
+    simp only [matchSeqFrom]
+    have hidx : nps + δ + dep - 1 = nps + dep - 1 + δ := by omega
+    rw [hidx]
+    cases hch : inpS[nps + dep - 1]? with
+    | some ch =>
+      have hlt : nps + dep - 1 < inpS.length := by
+        rcases Nat.lt_or_ge (nps + dep - 1) inpS.length with h | h
+        · exact h
+        · rw [List.getElem?_eq_none h] at hch; cases hch
+      rw [F.get hlt, hch]
+      simp only
+      by_cases hcmp : seqCmp ch e ic = true
+      · rw [if_pos hcmp, if_pos hcmp]
+        rcases ih (dep + 1) (by omega) with ⟨h1, h2⟩ | h3
+        · refine Or.inl ⟨h1, fun hm _ => ?_⟩
+          cases es with
+          | nil => simp only [List.length_cons, List.length_nil]; omega
+          | cons e' es' =>
+            have := h2 hm (by simp)
+            simp only [List.length_cons] at this ⊢; omega
+        · exact Or.inr h3
+      · rw [if_neg hcmp, if_neg hcmp]
+        exact Or.inl ⟨rfl, fun hm => by cases hm⟩
+    | none =>
+      by_cases hcl : Closed inpS inpW δ
+      · rw [F.get_closed hcl, hch]
+        refine Or.inl ⟨rfl, fun hm => ?_⟩
+        cases il <;> simp at hm
+      · cases il with
+        | true => exact absurd (hil rfl) hcl
+        | false => exact Or.inr ⟨by simp, hcl, rfl⟩
+
 end
 end LolHtml.Model.Chunk
